@@ -308,6 +308,7 @@ package broker
 //@   ensures [auth-called] nauth == old(nauth) + 1
 //@   ensures [setup-iff-auth] (authok ==> nsetup == old(nsetup) + 1) && (!authok ==> nsetup == old(nsetup))
 //@   ensures [rejected] !authok ==> err != nil && nsetup == old(nsetup) && c.will == old(c.will) && c.state == old(c.state) && c.session == old(c.session) && nsentall <= old(nsentall) + 1 && nsentall == old(nsentall) + nsent[2] && (nsent[2] == 1 ==> connack_code == 5) && npublish == old(npublish) && nsubscribe == old(nsubscribe) && nrestore == old(nrestore)
+//@   ensures [terminate-due] nsetup == old(nsetup) + 1 ==> c.state == 1
 //@   ensures [accepted] err == nil ==> authok && nsetup == old(nsetup) + 1 && connected(c) && c.state == 1 && nsent[2] == 1 && connack_code == 0
 //@   ensures [session-present] err == nil ==> (connack_sp <==> (!pkt.CleanSession && setup_resumed))
 //@   ensures [will] err == nil ==> (pkt.Will != nil ==> c.will == pkt.Will) && (pkt.Will == nil ==> c.will == old(c.will))
@@ -317,6 +318,7 @@ package broker
 //@   ensures [resend-window] err == nil ==> dtok - old(dtok) <= nall && dtry - old(dtry) == nall
 //@   ensures [saved] saved == old(saved)
 //@   modifies c.id, c.state, c.session, c.will, c.MaximumKeepAlive, c.ParallelPublishes, c.ParallelSubscribes, c.InflightMessages, c.TokenTimeout, c.PacketCallback, c.Ref, c.publishTokens, c.subscribeTokens, c.dequeueTokens, c.ackQueue, any(packet.Publish.Dup), nauth, authok, nsetup, setup_resumed, nrestore, nall, nsent, nsentall, sentseq, lastid, connack_sp, connack_code, nnodup, npubq, dtok, dtry, ptok, stok, nclose, tdying[c.tomb], stry, ptry
+//@   at call 1 Setup assert [connected-before-setup] c.state == 1
 //@   at call 2 send assert [connack-after-setup] nsetup == old(nsetup) + 1 && authok && c.session != nil
 //@   loop 4 invariant [resent] 0 <= rangeindex + 1 && rangeindex + 1 <= len(packets) && nall == len(packets) && nsentall == old(nsentall) + 1 + rangeindex + 1 && nnodup == old(nnodup) && nsent[2] == 1 && connack_code == 0 && (connack_sp <==> (!pkt.CleanSession && setup_resumed))
 //@   loop 4 invariant [order] forall k int {sentseq[k]} :: old(nsentall) + 1 <= k && k <= old(nsentall) + 1 + rangeindex ==> sentseq[k] == as(packets[k - old(nsentall) - 1], *packet.Publish)
